@@ -26,7 +26,7 @@ PARAM_VALS = {
     'max_frame_size': [0, 1, 4095, 10**6, -1, 'a', 1.5, None],
     'can_fd': [True, False, 1, 0, None, 'a'],
     'bitrate_switch': [True, False, 1, None],
-    'default_target_address_type': [0, 1, 2, -1, 'a', None],
+    'default_target_address_type': [0, 1, 2, -1, 'a', None, 'TAT:0', 'TAT:1'],     # 'TAT:k': the enum member itself (core.unmark)
     'rate_limit_max_bitrate': [1, 64, 320, 321, 300, 281, 319, 2530, 10000, 100000000, 0, -1, 1.5, 'a', None, 10**400],
     'rate_limit_window_size': [0.2, 1, 0.05, 1.0, 0, -1, 0.0, float('nan'), float('inf'), 1e308, 'a', None, True, 10**400],
     'rate_limit_enable': [True, False, 1, None],
@@ -102,6 +102,8 @@ def doc_param_verdict(p):
         if not isinstance(p.get(k, d), bool):
             rej()
     t = p.get('default_target_address_type', 0)
+    if isinstance(t, str) and t.startswith('TAT:'):
+        t = int(t[4:])
     if isinstance(t, bool):
         either()
     elif not (is_int(t) and t in (0, 1)):
